@@ -38,6 +38,11 @@ fn parse_args() -> Args {
 
 fn main() {
     let args = parse_args();
+    if args.driver == "schemepush1" {
+        // child process of the C19 driver: prints its events on stdout, writes no trace file
+        if let Err(e) = drivers::schemepush::run_child(&args) { eprintln!("vh: child error: {e}"); std::process::exit(2) }
+        return;
+    }
     let log = events::init(&args.out);
     let res = std::panic::catch_unwind(std::panic::AssertUnwindSafe(|| drivers::run(&args, log)));
     log.finish(&format!("{}.scn", args.out));
